@@ -140,3 +140,43 @@ def encoded_piecewise(evs, content):
                for x in chain):
             return e
     return None
+
+
+_IMPORT_CACHE = {}
+
+
+def imported_rules(P, rep, rid, tier, pid, consequence, only=None):
+    """The rules of a neighbouring property ``pid`` that are necessary conditions of the property of ``rep``,
+    instantiated under rule ``rid`` of this property: the neighbour's analysis is run on the same program into a
+    private report (it writes no evidence and prints nothing) and every violation it finds - other than that
+    property's listed known findings - is reported here with the consequence for *this* property.  ``only``
+    restricts the import to some rule ids.  When the neighbour's analysis cannot decide (analysis error) the imported
+    rules are recorded as undecided for this run; this property's own rules are unaffected."""
+    import importlib
+    from sa.report import Report, load_known
+    key = (pid, tier, getattr(P, 'digest', None))
+    if key not in _IMPORT_CACHE:
+        mod = importlib.import_module('sa.props.%s' % pid.lower())
+        sub = Report(pid, tier, P)
+        err = None
+        try:
+            mod.run(P, sub, tier)
+        except AnalysisError as e:
+            err = str(e)
+        _IMPORT_CACHE[key] = (sub, err)
+    sub, err = _IMPORT_CACHE[key]
+    known = {k['key'] for k in load_known() if k.get('property') == pid and k.get('kind') == 'finding'}
+    viol = [v for v in sub.violations if v['key'] not in known and (only is None or v['rule'] in only)]
+    rules = [r_ for r_ in sub.order if only is None or r_ in only]
+    for v in viol:
+        rep.violation(rid, '%s' % v['key'][:90], v['loc'],
+                      '%s [%s, instantiated here: %s]' % (v['msg'][:600], v['rule'], consequence), path=v.get('path'), witness=v.get('witness'))
+    if err is not None:
+        rep.info('rules of %s imported under %s are undecided on this tree (%s)' % (pid, rid, err[:200]))
+        if not viol:
+            rep.extra.setdefault('imported_undecided', []).append({'rule': rid, 'from': pid, 'reason': err[:300]})
+        return
+    bad = {v['rule'] for v in viol}
+    for r_ in rules:
+        if r_ not in bad:
+            rep.ok(rid, '%s (%s)' % (r_, sub.rules[r_]['desc'][:80]), {'obligations': sub.rules[r_]['instances']})
